@@ -6,7 +6,8 @@
    Every theorem is for ALL series, ALL arguments, any value type V with a decidable equality veqb. *)
 From Coq Require Import ZArith List Bool Arith Lia.
 From KV Require Import Base.Sx Model.Categorical Proofs.CategoricalP Proofs.CategoricalAddP Proofs.CategoricalPartP
-  Proofs.CategoricalConcatP Proofs.CategoricalRemoveP Proofs.CategoricalAlignP Proofs.CategoricalSeqP.
+  Proofs.CategoricalConcatP Proofs.CategoricalRemoveP Proofs.CategoricalAlignP Proofs.CategoricalSeqP
+  Gen.Generated Proofs.CategoricalTieP.
 Import ListNotations.
 Open Scope nat_scope.
 
@@ -148,6 +149,14 @@ Theorem C11_histories : forall V (veqb : V -> V -> bool) (dflt : V), eq_dec_spec
   run_ops veqb dflt c ops = Some c' -> WF c' /\ ndumps c' = N.
 Proof. exact @run_ops_WF. Qed.
 Print Assumptions C11_histories.
+
+(* tie: the constants of katdal/categorical.py re-read from the source on every run are the ones the model uses *)
+Theorem C11_source_constants :
+  cat_lookup_side_right = true /\ cat_add_side_left = true /\ cat_partition_side_right = true /\
+  cat_match_dist_default = 1%Z /\ cat_unmatched_is_gt = true /\ cat_align_keeps_increasing = true /\
+  cat_allow_repeats_default = false /\ cat_repeats_removed_unless_allowed = true.
+Proof. exact cat_constants_ok. Qed.
+Print Assumptions C11_source_constants.
 
 (* non-vacuity: the hypotheses are satisfiable and the operations do something on a concrete series *)
 Example C11_example :
